@@ -24,6 +24,8 @@ func main() {
 			fmt.Fprintln(os.Stderr, "worker:", err)
 			os.Exit(2)
 		}
+	case "profile":
+		os.Exit(profileMain(os.Args[2:]))
 	case "check":
 		os.Exit(checkMain(os.Args[2:]))
 	default:
